@@ -183,7 +183,7 @@ def c04(run):
     for W, M in ((8, 3), (16, 6)) if run.thorough else ((8, 3),):
         for mf, must_hold in ((W - M - 2, True), (W - M, True), (W - M + 1, False)):
             cfg = os.path.join(vlib.scratch(), f"LzhDrain_{W}_{mf}.cfg")
-            open(cfg, "w").write(vlib.cfg_text({"W": W, "M": M, "MaxFill": mf, "MaxCodes": 6 if W == 8 else 5, "Sizes": "{1, 2, %d, %d}" % (M + 2, W + 1)}, invariants=drain_inv))
+            open(cfg, "w").write(vlib.cfg_text({"W": W, "M": M, "MaxFill": mf, "MaxCodes": 6 if W == 8 else 5, "Sizes": "{1, 2, %d, %d}" % (M + 2, W + 1)}, invariants=drain_inv, properties=("RefinesBounds",) if must_hold else ()))
             r = vlib.run_tlc("LzhDrain", cfg, tags=(), workers=8, timeout=1500)
             if must_hold and (r["violation"] or not r["ok"]):
                 raise MachineryError("LzhDrain: the drain design violates its contract for a safe threshold:\n" + r["stdout"][-1500:])
@@ -191,6 +191,12 @@ def c04(run):
                 raise MachineryError("LzhDrain: vacuity - the overrun for a threshold of W - M + 1 was not found")
             run.states += r.get("distinct", 0); run.transitions += r.get("generated", 0)
             run.part(f"LzhDrain W={W} M={M} MaxFill={mf}", holds=must_hold, tlc_states=r.get("distinct", 0))
+    # ... and for EVERY ring size, run length and threshold with MaxFill + M <= W (the real 4096 / 60 / 4034 included): Apalache discharges the
+    # inductive invariant of the counters-only machine DrainBounds, which the TLC runs above have just shown LzhDrain to refine
+    n = vlib.inductive("DrainBounds", "IndInv", goals=("NoOverrun",), cinit="ConstInit")
+    if vlib.run_apalache("DrainBounds", "IndInv", "NoOverrun", 0, cinit="ConstInitUnsafe"):
+        raise MachineryError("DrainBounds: vacuity - a threshold of W - M + 1 was not refuted")
+    run.part("DrainBounds (Apalache: inductive invariant for unbounded W, M, MaxFill, call sizes; threshold W - M + 1 refuted)", obligations=n + 1)
     if run.thorough:
         # inputs that drive the real decoder across its capacity, decoded code by code by the specification (minutes of TLC time)
         _lzh_machine(run, [(314, 65535, "zero", 120000), (314, 65535, "ff", 140000), (314, 65535, "lcg", 130000), (314, 65535, "aa", 130000)])
@@ -398,12 +404,15 @@ def c14(run):
     run.scen("MC_Limits", {}, own=by_prefix("prefixed_write", "typed_roundtrip", "scenario"), name="MC_Limits (size-prefixed containers, typed round trips)")
     # (d) the copy loop: TLC checks termination and dest = src[start..len) on the loop as the code structures it, exports every behaviour
     g = vlib.generate("CopyLoop", {"MaxLen": 9 if run.thorough else 7, "MaxChunk": 4}, invariants=("PosInBounds", "CopiesExactlyTheRest", "OnlySourceBytes", "ReadCount", "Export"),
-                      properties=("Terminates",), workers=4)
+                      properties=("Terminates", "RefinesBounds"), workers=4)
     run.add_model(g)
     run.sample(g["records"][len(g["records"]) // 2])
     r = vlib.run_scenarios(run.harness("scen"), g["file"], run.pid)
     run.traces += r["scenarios"]; run.steps += r["steps"]; run.add_mismatches(r["mismatches"])
     run.part("CopyLoop (all lengths x chunk sizes x start positions, five backends)", behaviours=g["n"], tlc_states=g["states"])
+    # for EVERY length, start position and chunk size: the counters-only machine CopyBounds (which CopyLoop has just been shown to refine)
+    n = vlib.inductive("CopyBounds", "IndInv", goals=("CopiesExactlyTheRest",))
+    run.part("CopyBounds (Apalache: inductive invariant for unbounded length, start, chunk size)", obligations=n)
     run.scen("MC_CopyBig", {}, name="MC_CopyBig (default 128 KiB chunk)")
     # (e) the open-flag matrix
     g = vlib.generate("FileOpen", {}, invariants=("OpenedExists",), properties=("RefusedChangesNothing", "AppendPreserves", "FreshStartsEmpty", "GrowsBySuffix"), workers=4)
